@@ -233,6 +233,13 @@ func (ev *Evaluator) initModule(name string, visiting map[string]bool) (*modStat
 	return ms, nil
 }
 
+// EvalConst evaluates a closed literal expression.
+func (ev *Evaluator) EvalConst(x Expr) (Value, bool) {
+	ev.curMod = &modState{m: &Module{Name: "m"}, globals: &env{vars: map[string]*binding{}}, singletons: map[string]*binding{}}
+	v, c := ev.eval(x, ev.curMod.globals)
+	return v, c == nil
+}
+
 // Run executes init + main and fills the trace outcome.
 func (ev *Evaluator) Run() *Trace {
 	c := ev.Init()
